@@ -308,29 +308,10 @@ Proof.
     + now apply IH.
 Qed.
 
-(* the distances of the rows that have one *)
-Definition row_dists (rows : list row) : list Q :=
-  flat_map (fun r => match row_dist r with Some d => [d] | None => [] end) rows.
-
 Lemma row_dists_In rows r q : In r rows -> row_dist r = Some q -> In q (row_dists rows).
 Proof.
   intros Hr Hq. unfold row_dists. apply in_flat_map. exists r. split; [assumption|]. rewrite Hq. now left.
 Qed.
-
-(* what verdict 0 of ksel_code guarantees about the reported rows *)
-Definition rows_ksel (k : N) (cs : list cand) (rows : list row) : Prop :=
-  (* no id twice *)
-  NoDup (map r_id rows) /\
-  (* every row is a candidate and reports a non-NaN distance that the candidate's judgement accepts *)
-  (forall r, In r rows -> exists c q, In c cs /\ c_id c = r_id r /\ find_cand (r_id r) cs = Some c /\
-                                   row_dist r = Some q /\ dist_ok c q = true) /\
-  (* as many rows as the limit allows *)
-  N.of_nat (length rows) = N.min k (N.of_nat (length cs)) /\
-  (* in non-decreasing distance order *)
-  nondecreasing (row_dists rows) /\
-  (* no exactly-judged candidate that was left out is strictly closer than a reported row *)
-  (forall c q, In c cs -> ~ In (c_id c) (map r_id rows) -> c_spec c = DExact q ->
-               forall r dr, In r rows -> row_dist r = Some dr -> (dr <= q)%Q).
 
 Theorem c04_checker_sound_lemma k cs rows : ksel_code k cs rows = 0%N -> rows_ksel k cs rows.
 Proof.
@@ -364,14 +345,6 @@ Proof.
 Qed.
 
 (* ---- link with the relational specification `ksel` when every candidate is judged exactly ---- *)
-
-Definition cand_q (c : cand) : Q := match c_spec c with DExact q => q | _ => 0%Q end.
-Definition all_exact (cs : list cand) : Prop := forall c, In c cs -> exists q, c_spec c = DExact q.
-(* the candidates the rows name *)
-Definition sel_of (cs : list cand) (rows : list row) : list cand :=
-  flat_map (fun r => match find_cand (r_id r) cs with Some c => [c] | None => [] end) rows.
-Definition row_matches (cs : list cand) (c : cand) (r : row) : Prop :=
-  In c cs /\ c_id c = r_id r /\ exists q, row_dist r = Some q /\ (q == cand_q c)%Q.
 
 Lemma Forall2_In_l {A B} (P : A -> B -> Prop) l1 l2 a :
   Forall2 P l1 l2 -> In a l1 -> exists b, In b l2 /\ P a b.
@@ -481,10 +454,6 @@ Lemma id_from_key_foreign accepted k :
   (forall s, node_id_from_key k s = None) -> id_from_key accepted k = None.
 Proof. intros H. induction accepted as [|a r IH]; cbn [id_from_key]; [reflexivity|]. now rewrite H. Qed.
 
-(* a bucket key yields this id *)
-Definition yields (accepted : list N) (keys : list bytes) (id : N) : Prop :=
-  exists k, In k keys /\ id_from_key accepted k = Some id.
-
 Lemma scan_ids_spec accepted keys : forall have id,
   In id (scan_ids accepted have keys) <-> ~ In id have /\ yields accepted keys id.
 Proof.
@@ -548,9 +517,6 @@ Qed.
 
 (* ---- the three stores ---- *)
 
-Definition foreign (k : bytes) : Prop := forall s, node_id_from_key k s = None.
-Definition ids_ok (ids : list N) : Prop := forall id, In id ids -> id < two64.   (* ids are uint64 *)
-
 Lemma threshold_key_foreign : foreign bq_threshold_key.
 Proof. intros s. reflexivity. Qed.
 
@@ -585,11 +551,6 @@ Qed.
 
 Definition bq_sufs (s : bq_keys) : list N :=
   match s with BQ_v => [suf_v] | BQ_q => [suf_q] | BQ_qv => [suf_q; suf_v] end.
-
-(* a bucket = the point keys in any order, plus keys that are not node keys
-   (the persisted threshold / centroids) *)
-Definition bucket_of (keys point_keys : list bytes) : Prop :=
-  exists other, Permutation keys (point_keys ++ other) /\ forall k, In k other -> foreign k.
 
 Lemma yields_perm accepted k1 k2 id : Permutation k1 k2 -> yields accepted k1 id -> yields accepted k2 id.
 Proof. intros Hp (k & Hk & E). exists k. split; [now apply (Permutation_in _ Hp)|assumption]. Qed.
@@ -685,15 +646,6 @@ Proof.
     + intros [[= <- <-]|[H1 H2]]; [split; [now left|assumption]|split; [now right|assumption]].
     + intros [[<-|H1] H2]; [left; congruence|right; now split].
 Qed.
-
-(* the cache is in sync with the bucket (what holds after Flush once every item has been loaded) *)
-Record in_sync {V} (accepted : list N) (read : N -> option V) (keys : list bytes) (c : cache V) : Prop := {
-  sync_nodup : NoDup (cache_ids c);                                      (* ic.items is a map *)
-  sync_live : forall id e, In (id, e) c -> ce_deleted e = false;         (* Flush dropped the deleted entries *)
-  sync_val : forall id e, In (id, e) c -> read id = Some (ce_val e);     (* ReadFrom decodes what was written *)
-  sync_all : forall id, yields accepted keys id -> In id (cache_ids c);  (* everything has been loaded *)
-  sync_keys : forall id, In id (cache_ids c) -> yields accepted keys id  (* enumeration invariant of section 3 *)
-}.
 
 Lemma NoDup_fst_NoDup {X Y} (l : list (X * Y)) : NoDup (map fst l) -> NoDup l.
 Proof.
@@ -886,3 +838,118 @@ Proof.
   - now apply (yields_foreign bq_idfromkey_suffixes_v0 other i Hother).
 Qed.
 
+(* ======================================================================== *)
+(* 5. every reachable state of a store enumerates exactly what is stored     *)
+(* ======================================================================== *)
+
+Definition kentry_eqb (a b : kentry) : bool :=
+  Bool.eqb (ke_deleted a) (ke_deleted b) && Bool.eqb (ke_dirty a) (ke_dirty b) &&
+  Bool.eqb (ke_vec a) (ke_vec b) && Bool.eqb (ke_code a) (ke_code b).
+Definition feqb (a b : fstate) : bool :=
+  match f_entry a, f_entry b with
+  | Some x, Some y => kentry_eqb x y
+  | None, None => true
+  | _, _ => false
+  end && Bool.eqb (f_q a) (f_q b) && Bool.eqb (f_v a) (f_v b) &&
+  Bool.eqb (f_trained a) (f_trained b) && Bool.eqb (f_live a) (f_live b).
+
+Lemma kentry_eqb_eq a b : kentry_eqb a b = true -> a = b.
+Proof.
+  unfold kentry_eqb. rewrite !andb_true_iff. intros [[[H1 H2] H3] H4].
+  apply Bool.eqb_prop in H1, H2, H3, H4. destruct a, b. cbn in *. congruence.
+Qed.
+Lemma feqb_eq a b : feqb a b = true -> a = b.
+Proof.
+  unfold feqb. rewrite !andb_true_iff. intros [[[[H0 H1] H2] H3] H4].
+  apply Bool.eqb_prop in H1, H2, H3, H4. destruct a as [ea ? ? ? ?], b as [eb ? ? ? ?]. cbn in *.
+  destruct ea as [x|], eb as [y|]; try discriminate.
+  - apply kentry_eqb_eq in H0. congruence.
+  - congruence.
+Qed.
+Lemma feqb_refl a : feqb a a = true.
+Proof.
+  unfold feqb, kentry_eqb. rewrite !Bool.eqb_reflx. destruct (f_entry a) as [x|]; [|reflexivity].
+  now rewrite !Bool.eqb_reflx.
+Qed.
+Definition fmem (s : fstate) (l : list fstate) : bool := existsb (feqb s) l.
+Fixpoint fdedup (l : list fstate) : list fstate :=
+  match l with [] => [] | x :: r => if fmem x r then fdedup r else x :: fdedup r end.
+
+(* the per-id states reachable from an empty store, by breadth-first closure under all operations *)
+Fixpoint bfs (fuel : nat) (c : kcfg) (seen frontier : list fstate) : list fstate :=
+  match fuel with
+  | O => seen
+  | S n =>
+      let next := flat_map (fun s => map (fstep c s) all_pops) frontier in
+      let new := fdedup (filter (fun s => negb (fmem s seen)) next) in
+      match new with [] => seen | _ => bfs n c (seen ++ new) new end
+  end.
+Definition reach (c : kcfg) : list fstate :=
+  bfs 64 c [fstate0 true; fstate0 false] [fstate0 true; fstate0 false].
+
+(* checked by computation, per configuration *)
+Definition cfg_ok_on (c : kcfg) (R : list fstate) : bool :=
+  fmem (fstate0 true) R && fmem (fstate0 false) R &&
+  forallb (fun s => forallb (fun o => fmem (fstep c s o) R) all_pops) R &&
+  forallb (fun s => Bool.eqb (fenum c s) (f_live s)) R.
+
+Lemma fmem_In s l : fmem s l = true <-> In s l.
+Proof.
+  unfold fmem. rewrite existsb_exists. split.
+  - intros (y & Hy & E). apply feqb_eq in E. now subst.
+  - intros H. exists s. split; [assumption|apply feqb_refl].
+Qed.
+
+Lemma all_pops_all o : In o all_pops.
+Proof. destruct o; cbn; tauto. Qed.
+
+Lemma reach_closed c R pops : cfg_ok_on c R = true -> forall s, In s R -> In (fold_left (fstep c) pops s) R.
+Proof.
+  intros Hok. unfold cfg_ok_on in Hok. rewrite !andb_true_iff in Hok. destruct Hok as [[[_ _] Hcl] _].
+  rewrite forallb_forall in Hcl.
+  induction pops as [|o r IH]; intros s Hs; cbn [fold_left]; [assumption|]. apply IH.
+  specialize (Hcl s Hs). rewrite forallb_forall in Hcl. apply fmem_In. apply Hcl. apply all_pops_all.
+Qed.
+
+Lemma krun_proj c ops : forall s id,
+  krun c s ops id = fold_left (fstep c) (map (fun o => proj o id) ops) (s id).
+Proof.
+  induction ops as [|o r IH]; intros s id; [reflexivity|].
+  unfold krun in *. cbn [fold_left map]. rewrite IH. reflexivity.
+Qed.
+
+Lemma enum_reachable_on c R :
+  cfg_ok_on c R = true ->
+  forall trained0 ops id, enumerated c (krun c (kstate0 trained0) ops) id = stored (krun c (kstate0 trained0) ops) id.
+Proof.
+  intros Hok trained0 ops id. unfold enumerated, stored. rewrite krun_proj.
+  assert (Hin : In (fold_left (fstep c) (map (fun o => proj o id) ops) (kstate0 trained0 id)) R).
+  { apply (reach_closed c R); [assumption|]. unfold kstate0. unfold cfg_ok_on in Hok. rewrite !andb_true_iff in Hok.
+    destruct Hok as [[[H1 H2] _] _]. apply fmem_In. destruct trained0; assumption. }
+  unfold cfg_ok_on in Hok. rewrite !andb_true_iff in Hok. destruct Hok as [_ Hg].
+  rewrite forallb_forall in Hg. specialize (Hg _ Hin). now apply Bool.eqb_prop in Hg.
+Qed.
+
+Lemma cfg_plain_ok : cfg_ok_on cfg_plain (reach cfg_plain) = true. Proof. vm_compute. reflexivity. Qed.
+Lemma cfg_product_ok : cfg_ok_on cfg_product (reach cfg_product) = true. Proof. vm_compute. reflexivity. Qed.
+(* depends on the generated bq_idfromkey_suffixes: false for the pinned IdFromKey *)
+Lemma cfg_binary_ok : cfg_ok_on cfg_binary (reach cfg_binary) = true. Proof. vm_compute. reflexivity. Qed.
+Lemma cfg_binary_v0_not_ok : cfg_ok_on cfg_binary_v0 (reach cfg_binary_v0) = false. Proof. vm_compute. reflexivity. Qed.
+
+Theorem c04_enum_reachable_lemma :
+  forall c, c = cfg_plain \/ c = cfg_product \/ c = cfg_binary ->
+  forall trained0 ops id, enumerated c (krun c (kstate0 trained0) ops) id = stored (krun c (kstate0 trained0) ops) id.
+Proof.
+  intros c [ -> | [ -> | -> ] ].
+  - exact (enum_reachable_on cfg_plain (reach cfg_plain) cfg_plain_ok).
+  - exact (enum_reachable_on cfg_product (reach cfg_product) cfg_product_ok).
+  - exact (enum_reachable_on cfg_binary (reach cfg_binary) cfg_binary_ok).
+Qed.
+
+(* pinned IdFromKey, binary quantiser with a fixed threshold: write, flush, lose the cache *)
+Theorem c04_binary_reach_refuted_lemma :
+  let s := krun cfg_binary_v0 (kstate0 true) [KSet 7; KFlush; KDropCache] in
+  stored s 7 = true /\ enumerated cfg_binary_v0 s 7 = false /\
+  (* ... while the cache was still there the point was found *)
+  enumerated cfg_binary_v0 (krun cfg_binary_v0 (kstate0 true) [KSet 7; KFlush]) 7 = true.
+Proof. vm_compute. repeat split. Qed.
